@@ -106,6 +106,11 @@ def dump_cfg(rng, cfg: dict) -> dict:
     spelled = {}
     for k, v in cfg.items():
         spelled[k.replace("-", "_") if rng.random() < 0.5 else k] = v
+    if cfg.get("__carrier__") == "yaml-aliases":
+        import yaml
+
+        spelled = {k: v for k, v in spelled.items() if not k.startswith("__")}
+        return {".thailint.yaml": yaml.safe_dump(spelled, sort_keys=False)}  # (lists shared between sections come out as &anchor / *alias)
     return {".thailint.json": json.dumps(spelled, indent=1)}
 
 
@@ -122,6 +127,9 @@ def run(ctx):
     base_cfg = {"dry": {"enabled": True, "min_duplicate_lines": 3},
                 "file-placement": {"global_deny": [{"pattern": ".*thirdf\\.py$", "reason": "no third module here"}]}}
     srcs = {k: v for k, v in base.items() if k != ".thailint.yaml"}
+    # files in places some linters' DEFAULT ignore lists name (tests/, conftest.py): linted by every rule that does not have such a default
+    srcs["pkg/tests/test_sample.py"] = srcs["src/appf.py"].replace("f(", "f_t(")
+    srcs["pkg/conftest.py"] = srcs["src/otherf.py"]
     jobs, meta = [], []
     jobs.append((dict(srcs, **{".thailint.json": json.dumps(base_cfg)}), cmds, "."))
     meta.append(("base", None))
@@ -133,6 +141,13 @@ def run(ctx):
             if sec in OWN[cmd]:
                 continue
             cfg[sec] = FOREIGN[sec](rng)
+        if i < len(cmds) or rng.random() < 0.4:  # (every command once, then at random)
+            # one neutral ignore list (it matches no file) written once and referred to by several sections, the command's own included:
+            # what one linter does with its copy must not reach the others
+            shared = ["nomatch_dir/", "**/nomatch_*.xyz"]
+            for sec in set(rng.sample(sorted(FOREIGN), 3) + ["stringly-typed"] + OWN[cmd][:1]) - {"file-placement"}:
+                cfg.setdefault(sec, {})["ignore"] = shared
+            cfg["__carrier__"] = "yaml-aliases"
         jobs.append((dict(srcs, **dump_cfg(rng, cfg)), [cmd], "."))
         meta.append(("foreign", (cmd, cfg)))
     poly = polyglot()
